@@ -605,7 +605,7 @@ func init() {
 		ID:    "C14",
 		Level: "exploration",
 		Rule: "cases are biased to everything that iterates a map: data objects with 2..12 keys (incl. keys that differ only in case, nested objects) printed, dumped, nested, iterated; object literals with many keys; object literals, array literals and component argument lists with 2..4 failing entries; pages with 2..4 undefined/duplicate inserts; components with 2..3 slots passed twice or undeclared; trees with 2..4 faulty files at once (syntax and link faults); plus the generic program generator (shuffle()/rand() excluded). " +
-			"Every case is executed R1 times in one process (trees are reloaded from disk after a state reset each time) and as R2 copies that the supervisor's striding places in different worker processes; all observations (output, or error message+line+path) of a case must be byte-identical, within a process and across processes (copies exchange digests through a shared scratch directory). also case-family key sets, empty insert names, failing entries wrapped in literals; order-independent shuffle programs, reconfigured templates; round 8: template names differing in case; nine operations in fresh child processes alone and after each other one; round 9: operations on a kept Template in fresh processes; rounds 10-11: rewritten files, look-alike values and requests in fresh processes; rounds 12-13: dumps of failing literals, several unusable components, several insert names passed twice, careless error page paths; round 14: several components with a slot fault each, alias and plain string in one process, several unbindable data entries; round 15: unbindable entries under the empty key; distinct_nontrivial = distinct cases whose observation involved an object with >= 2 keys or >= 2 simultaneous faults",
+			"Every case is executed R1 times in one process (trees are reloaded from disk after a state reset each time) and as R2 copies that the supervisor's striding places in different worker processes; all observations (output, or error message+line+path) of a case must be byte-identical, within a process and across processes (copies exchange digests through a shared scratch directory). also case-family key sets, empty insert names, failing entries wrapped in literals; order-independent shuffle programs, reconfigured templates; round 8: template names differing in case; nine operations in fresh child processes alone and after each other one; round 9: operations on a kept Template in fresh processes; rounds 10-11: rewritten files, look-alike values and requests in fresh processes; rounds 12-13: dumps of failing literals, several unusable components, several insert names passed twice, careless error page paths; round 14: several components with a slot fault each, alias and plain string in one process, several unbindable data entries; round 15: unbindable entries under the empty key; round 18: repeated renders of one kept Template; distinct_nontrivial = distinct cases whose observation involved an object with >= 2 keys or >= 2 simultaneous faults",
 		Assumptions: []string{
 			"quick: R1=12 in-process repetitions x 3 copies; thorough: R1=40 x 8 copies; with k >= 2 candidates for 'first' a map-ordered choice survives all repetitions with probability <= 2^-35",
 			"cross-process comparisons only count when the copies ran in different processes (reported as cross_process_comparisons)",
@@ -671,7 +671,67 @@ func init() {
 					c.Violation("nondeterministic:across-processes:history", fmt.Sprintf("%q gives in a fresh process\n%s\nbut in a process that did %q first\n%s", c14ProcOps[o].name, clipS(alone[0], 400), c14ProcOps[p].name, clipS(after[1], 400)), desc)
 				}
 			}}
-			return []core.Section{fresh, {Name: "repetitions", N: n * r2, Run: func(c *core.Ctx, i int) {
+			// round 18: one loaded Template rendered again and again, other renders in between: every render of a page gives what
+			// the first gave and what a Template loaded afresh at the end gives (state kept in the loaded trees shows here)
+			keptFiles := map[string]string{
+				"layouts/l.tw":    "<html>@reserve(\"t\")|@reserve(\"b\")</html>",
+				"components/c.tw": "<c {{ a }}>@slot</c>",
+				"lit.tw":          "<p>{{ \"Tom & Jerry <3\" }}</p>|{{ 'a > b' + \"&amp;\" }}|@each(k in [1, 2]){{ \"<\" + \"i>\" }}@end|{{ \"x & y\".raw() }}|{{ \"\\\"q\\\" & 'r'\" }}",
+				"page.tw":         "@use(\"~l\")@insert(\"t\", \"A & B\")@insert(\"b\")@component(\"~c\", {a: \"<&>\"})@slot{{ \"&\" }}{{ n }}@end@end@end",
+				"nums.tw":         "{{ x = [3, 1, 2] }}{{ x.reverse() }}{{ x }}|{{ f = 2.5 }}{{ -f }}{{ f-- }}{{ f }}|{{ {b: 1, a: \"<\"} }}|{{ n }}",
+				"fails.tw":        "before {{ \"<&>\" }}\n@each(v in [1, 0]){{ \"&\" }}{{ 6 / v }}@end",
+			}
+			kept := core.Section{Name: "renders-of-one-template-repeated", Exhaustive: true, N: len(keptFiles) - 2, Run: func(c *core.Ctx, i int) {
+				page := []string{"lit", "page", "nums", "fails"}[i]
+				tpl, err := loadTree(c, "c14kept", keptFiles, ".tw")
+				c.Nontrivial("kept:" + page)
+				if err != nil || tpl == nil {
+					if err != nil {
+						c.Violation("kept-template:load-failed", err.Error(), nil)
+					}
+					return
+				}
+				render := func(t *textwire.Template, k int) string {
+					var obs string
+					c.Eval(1)
+					c.Guard(func() {
+						if k%2 == 1 {
+							rec := newRecorder()
+							e := t.Response(rec, page, map[string]any{"n": 7})
+							obs = fmt.Sprintf("%s|%v", rec.body.String(), e != nil)
+							if e == nil {
+								obs = "OUT:" + rec.body.String()
+							}
+							return
+						}
+						out, fe := t.String(page, map[string]any{"n": 7})
+						if fe != nil {
+							obs = fmt.Sprintf("ERR:%s|line=%d", fe.Message(), fe.Line())
+							return
+						}
+						obs = "OUT:" + out
+					})
+					return obs
+				}
+				first := render(tpl, 0)
+				for k := 2; k <= 8; k += 2 {
+					d := detDisturbers[(i+k)%len(detDisturbers)]
+					c.Guard(func() { textwire.EvaluateString(d, map[string]any{"items": []int{1, 2, 3}, "zero": 0}) })
+					render(tpl, k+1) // through Response in between
+					if obs := render(tpl, k); obs != first {
+						c.Violation("nondeterministic:kept-template", fmt.Sprintf("render %d of page %q on one loaded Template gave\n%s\nthe first gave\n%s", k/2+1, page, clipS(obs, 400), clipS(first, 400)), map[string]any{"page": page})
+						return
+					}
+					c.Count("repeated_renders_of_a_kept_template", 1)
+				}
+				tpl2, err2 := loadTree(c, "c14kept", keptFiles, ".tw")
+				if err2 == nil && tpl2 != nil {
+					if obs := render(tpl2, 0); obs != first {
+						c.Violation("nondeterministic:kept-template:fresh", fmt.Sprintf("page %q on a Template loaded afresh gave\n%s\nthe first render of the earlier one gave\n%s", page, clipS(obs, 400), clipS(first, 400)), map[string]any{"page": page})
+					}
+				}
+			}}
+			return []core.Section{fresh, kept, {Name: "repetitions", N: n * r2, Run: func(c *core.Ctx, i int) {
 				caseNo, copyNo := i/r2, i%r2
 				// all copies of a case must build the very same case: seed from the case number only
 				rng := core.NewRng("C14", string(c.Tier), c.Seed, caseNo)
